@@ -169,7 +169,7 @@ def single_lengths(L):
     for k in (1, 2, 3):
         for d in (-1, 0, 1):
             n = k * L + d - 4
-            if n >= 0:
+            if 0 <= n <= 0xFFFF:
                 s.add(n)
     return s
 
@@ -177,7 +177,7 @@ def single_lengths(L):
 def class_lengths(L):
     """payload lengths by fragment-count class for sender length L (index = class)."""
     c = [0, L - 4, L - 3, 2 * L - 4, 2 * L - 5, 3 * L - 3, 1]
-    return [max(0, x) for x in c]
+    return [min(0xFFFF, max(0, x)) for x in c]
 
 
 def controller_attrs(transport, L, N):
@@ -454,6 +454,10 @@ def e2e_items(quick):
                     geoms.append(g)
     else:
         geoms = [(a[0], a[1], b[0], b[1]) for a in side for b in side]
+        # extreme lengths, one side varied at a time + diagonal
+        for L in (2, 3, 32768, 65535):
+            for N in Ns:
+                geoms += [(L, N, DEFAULT_L, DEFAULT_N), (DEFAULT_L, DEFAULT_N, L, N), (L, N, L, N)]
     small = [(t, g) for t in ('le', 'classic') for g in geoms]
     shared_L = (5, 27, 251) if quick else Ls
     for L in shared_L:
@@ -463,7 +467,7 @@ def e2e_items(quick):
 
     # top of the range and other large PDUs: sender geometry varied, receiver default
     if quick:
-        bigs = (65531, 65532, 65535)
+        bigs = (65531, 65532, 65533, 65534, 65535)
         bLs = (5, 27, 1021, 65535)
         bNs = (1, 64)
     else:
@@ -475,6 +479,8 @@ def e2e_items(quick):
         for L in bLs:
             for N in bNs:
                 for b in bigs:
+                    if quick and L < 1021 and b in (65533, 65534):
+                        continue
                     seqs = [[b], [3, b, 2]]
                     if not quick and b in (65531, 65535):
                         seqs.append([b, b])
@@ -833,6 +839,11 @@ ALPHABET = [
     ('S_overlong', 2, _hdr(1, 0x0046) + b'\x71\x72\x73'),  # start already longer than announced
     ('P3', 3, b'\x03\x00\x47\x00'),  # illegal pb value
 ]
+# thorough tier only: a longer PDU, so that many more partial buffers are reachable
+ALPHABET_T = [
+    ('S_first8of24', 2, _hdr(20, 0x0048) + b'\x81\x82\x83\x84'),  # announces 20, frame 24, carries 8
+    ('C8', 1, b'\x88\x89\x8a\x8b\x8c\x8d\x8e\x8f'),
+]
 # the host-path BFS interleaves a second connection: these act on handle B
 ALPHABET_B = [
     ('B_S_first5of10', 2, _hdr(6, 0x0053) + b'\x5a'),
@@ -974,12 +985,14 @@ def split_frame(f):
     return (f[2] | (f[3] << 8), f[4:])
 
 
-def bfs(target, st, max_states, with_b):
+def bfs(target, st, max_states, with_b, extended=False):
     """Explicit-state search.  State = shortest symbol history; canonical key = (real object's
     assembler fields, reference state).  Two histories with the same key have the same future:
     feed_packet branches only on current_data / l2cap_pdu_length, and the reference on its own
     state; deliveries are functions of those plus the next fragment."""
     symbols = [('A',) + s for s in ALPHABET]
+    if extended:
+        symbols += [('A',) + s for s in ALPHABET_T]
     if with_b:
         symbols += [('B',) + s for s in ALPHABET_B]
     by_name = {s[1]: s for s in symbols}
@@ -1077,7 +1090,7 @@ def bfs(target, st, max_states, with_b):
 
 
 def w_bfs(arg):
-    which, max_states = arg
+    which, max_states, extended = arg
     warnings.simplefilter('ignore')
     st = core.Stats('assembler')
     if which == 'assembler':
@@ -1087,13 +1100,13 @@ def w_bfs(arg):
         t = HostTarget()
         with_b = True
     try:
-        states, trans, depth = bfs(t, st, max_states, with_b)
+        states, trans, depth = bfs(t, st, max_states, with_b, extended)
     finally:
         t.close()
     st.count('states', states)
     st.count('transitions', trans)
     st.add('fixpoint_depths', (which, depth))
-    st.samples.append({'target': which, 'states': states, 'transitions': trans, 'fixpoint_depth': depth, 'alphabet': [a[0] for a in ALPHABET] + ([b[0] for b in ALPHABET_B] if with_b else [])})
+    st.samples.append({'target': which, 'states': states, 'transitions': trans, 'fixpoint_depth': depth, 'alphabet': [a[0] for a in ALPHABET] + ([a[0] for a in ALPHABET_T] if extended else []) + ([b[0] for b in ALPHABET_B] if with_b else [])})
     return st
 
 
@@ -1105,7 +1118,7 @@ def run(ctx: core.Context) -> int:
 
     asm = ctx.sub('assembler')
     if not only or 'assembler' in only:
-        for r in core.pmap(w_bfs, [('assembler', 20000), ('host_path', 3000 if quick else 60000)], ctx.jobs):
+        for r in core.pmap(w_bfs, [('assembler', 100000, not quick), ('host_path', 20000 if quick else 100000, not quick)], ctx.jobs):
             asm.merge(r)
         ctx.log(f'assembler: {asm.summary()}')
 
@@ -1143,7 +1156,7 @@ def run(ctx: core.Context) -> int:
         'transitions': asm.counters.get('transitions', 0),
         'traces_validated_against_impl': asm.evaluations,
         'state_definition': '(current_data, l2cap_pdu_length) of every real assembler involved x reference reassembler state; BFS to fixpoint over the fragment alphabet',
-        'alphabet': [a[0] for a in ALPHABET] + [b[0] for b in ALPHABET_B],
+        'alphabet': [a[0] for a in ALPHABET] + ([] if quick else [a[0] for a in ALPHABET_T]) + [b[0] for b in ALPHABET_B],
         'finals': [f[0] for f in FINALS],
     }
     return core.finish(
@@ -1160,7 +1173,7 @@ def run(ctx: core.Context) -> int:
         assumptions=[
             'message schedules: stock asyncio order only (no delivery-delay exploration in this property)',
             'payload bytes follow one position-dependent pattern of period 251 (offset varies with VERIF_SEED); other contents are not enumerated',
-            'ACL data packet length >= 4 (the L2CAP basic header fits the first fragment); ISO data packet length >= 5',
+            'ACL data packet length >= 2 (the first fragment must hold the 16-bit L2CAP length field; lengths 2 and 3 only in the thorough tier); ISO data packet length >= 5',
             'ISO SDU lengths up to 4095 (12-bit ISO_SDU_Length); a zero-length SDU that produces no ISO packet is accepted (zero fragments)',
             'assembler alphabet uses announced lengths <= 9 bytes; the assembler never branches on the magnitude beyond comparing with len(current_data)',
             'a start fragment shorter than the 2-byte length field and an illegal pb value make the reference indifferent until the next start fragment',
@@ -1201,6 +1214,7 @@ def replay(v: core.Violation):
             st = core.Stats('replay')
             names = {s[0]: s for s in ALPHABET}
             names.update({s[0]: s for s in ALPHABET_B})
+            names.update({s[0]: s for s in ALPHABET_T})
             t.fresh()
             refs = {h: RefAsm() for h in t.handles}
 
